@@ -372,8 +372,17 @@ def _bind_one(
 
         layer = dsk.layers[prev_layer_name]
         layer_deps = dsk.dependencies[prev_layer_name]
-        layer_deps_to_clone = layer_deps - omit_layers
         layer_deps_to_omit = layer_deps & omit_layers
+        if omit_keys:
+            # assume_layers=False: a layer whose output keys are all omitted must
+            # keep its name and contents, like the layers of omit_layers
+            layer_deps_to_omit |= {
+                dep
+                for dep in layer_deps
+                if dep in dsk.layers
+                and not (dsk.layers[dep].get_output_keys() - omit_keys)
+            }
+        layer_deps_to_clone = layer_deps - layer_deps_to_omit
         layers_to_clone |= layer_deps_to_clone
         layers_to_copy_verbatim |= layer_deps_to_omit
 
